@@ -546,6 +546,8 @@ const RELATIVE_REQUIRES: &[&str] = &[
     "./sub",
     "../..",
     "./example/..",
+    // a folder below the requiring file named like the folder a source/alias points to
+    "./src/example",
 ];
 
 fn source_requires(mode: &ModeCfg) -> Vec<&'static str> {
